@@ -33,6 +33,21 @@ def mk_value(rng, depth):
     return rng.choice(STRS)
 
 
+def expand(x):
+    """{'$big': [kind, n, seed]} stands for a long string (kept out of the case document)."""
+    if isinstance(x, dict):
+        if list(x.keys()) == ['$big']:
+            kind, n, seed = x['$big']
+            if kind == 'a':
+                return ('abc\u00e9' * (n // 4 + 1))[:n]
+            r = random.Random(seed)
+            return ''.join(r.choice('abcdefghijklmnopqrstuvwxyz0123456789 \u00e9\u20ac"\\\n') for _ in range(n))
+        return dict((k, expand(v)) for k, v in x.items())
+    if isinstance(x, list):
+        return [expand(v) for v in x]
+    return x
+
+
 def deep_eq(a, b):
     if type(a) is not type(b):
         return False
@@ -58,7 +73,7 @@ class C19(Check):
             'rxsci.framing.line (current working tree)', 'orjson, zlib, zstandard, codecs', 'RxPY core']
     stubs = ['simulated disk / file objects (open_obj seam, short reads)', 'final subscriber']
     assumptions = ['items are dicts (a top-level null is dropped by design); strings contain no lone surrogates; ints fit 64 bits']
-    probe_names = ('compression:None', 'compression:gzip', 'compression:zstd', 'short_reads', 'one_byte_reads', 'file>64KiB', 'multibyte_chars',
+    probe_names = ('object>64KiB', 'compression:None', 'compression:gzip', 'compression:zstd', 'short_reads', 'one_byte_reads', 'file>64KiB', 'multibyte_chars',
                    'newline_in_string', 'empty_file', 'path:mem')
     quick_cap = 100000
 
@@ -71,6 +86,11 @@ class C19(Check):
             for k in range(rng.choice([0, 1, 2, 4])):
                 d[rng.choice(['s', 'v', 'w', 'x\ny', 'ü'])] = mk_value(rng, 2)
             items.append(d)
+        # one object larger than a 64 KiB read chunk (a line spanning three or more chunks), compressible or not
+        if items and rng.random() < (0.03 if tier == 'quick' else 0.15):
+            kind = rng.choice(['a', 'rand'])
+            n1 = rng.choice([70000, 140000, 300000, 2500000 if kind == 'a' else 200000])
+            items[rng.randrange(len(items))]['blob'] = {'$big': [kind, n1, rng.randrange(1000)]}
         case = {'items': items, 'compression': rng.choice([None, 'gzip', 'zstd']), 'path': 'file' if rng.random() < 0.8 else 'mem',
                 'cutseed': rng.randrange(1 << 30)}
         if big:
@@ -88,6 +108,7 @@ class C19(Check):
             import orjson
             for i in case['items']:
                 orjson.dumps(i)
+                expand(i) if '$big' in repr(i) else None
             return all(isinstance(r, int) and r >= 1 for r in case.get('reads') or ())
         except Exception:
             return False
@@ -95,7 +116,9 @@ class C19(Check):
     def execute(self, case):
         out = Outcome()
         p = out.probes
-        items = case['items']
+        items = [expand(i) for i in case['items']]
+        if any('$big' in repr(i) for i in case['items']):
+            p['object>64KiB'] += 1
         comp = case['compression']
         steps = 1
         if case['path'] == 'mem':
